@@ -308,6 +308,7 @@ def run_case(case):
 
     saved = (_session.time, _events.time, _frame.make_masking_key, _websocket.os.urandom)
     events = []
+    nmsg = 0
     try:
         _session.time = TimeShim
         _events.time = TimeShim
@@ -316,8 +317,12 @@ def run_case(case):
         ws = WebSocket(URL, proxies={})
         try:
             for ev in ws.connect(session_class=Sess, poll=float(case['poll']), ping_rate=float(case.get('prate', 0)),
-                                 ping_timeout=None, close_timeout=None):
+                                 ping_timeout=None, close_timeout=(float(case['ctimeout']) if case.get('ctimeout') else None)):
                 n = ev.name
+                if n in ('text', 'binary', 'ping', 'pong'):
+                    nmsg += 1
+                    if case.get('close_at') == nmsg:
+                        ws.close(1000, b'bye')      # the application starts the closing handshake; the peer keeps sending
                 if n == 'text':
                     events.append([int(net.t), 'text', digest(ev.text.encode('utf-8'))])
                 elif n == 'binary':
@@ -388,6 +393,12 @@ def judge(case, out):
                  % (len(late), e[1], e[2], e[0], g[0]), observed=g, expected=e)
     # automatic replies
     pings = [e for e in expected if e[1] == 'ping']
+    if case.get('close_at'):
+        # after the application's close() a Pong can not be written any more (C14: dropped silently); the Ping AT which close() is
+        # called has been answered before the event was yielded
+        nth = [i for i, e in enumerate(expected) if e[1] != 'ready']
+        cut = nth[case['close_at'] - 1] if case['close_at'] - 1 < len(nth) else len(expected)
+        pings = [e for i, e in enumerate(expected) if e[1] == 'ping' and i <= cut]
     pongs = [w for w in out['writes'] if w[1] == 'op10']
     if [w[2] for w in pongs] != [e[2] for e in pings]:
         fail('reply-missing', 'automatic Pong replies do not match the Pings sent (%d pongs for %d pings)' % (len(pongs), len(pings)),
@@ -416,7 +427,11 @@ def judge(case, out):
     if not out['flags'] and end != 'END:stopped=1:fed=%d:now=%d' % (out['streamlen'], max(case['eof'], case['arr'][-1][0])):
         fail('not-drained', 'at EOF not every byte had been read, or the loop did not end at the EOF tick: %s' % end, observed=end)
     ev = out['events']
-    if not out['flags'] and (not ev or ev[-1][1] != 'disconnected' or not str(ev[-1][2]).startswith('socket fail; connection lost')):
+    if case.get('close_at'):
+        # an EOF during the closing handshake ends the loop too (how it is reported is C07 / C08's business)
+        if not out['flags'] and (not ev or ev[-1][1] != 'disconnected'):
+            fail('no-disconnect', 'loop did not end with Disconnected at EOF', observed=ev[-2:])
+    elif not out['flags'] and (not ev or ev[-1][1] != 'disconnected' or not str(ev[-1][2]).startswith('socket fail; connection lost')):
         fail('no-disconnect', 'loop did not end with "connection lost" at EOF', observed=ev[-2:])
     return fails
 
@@ -547,6 +562,48 @@ def grid_case(burst, transport, gap, poll=5):
     arr = [[0, hs]] + [[gap, s] for s in sizes]
     return dict(tag='grid/%s/%d/%d' % (transport, burst, gap), tls=transport != 'plain', poll=poll, prate=0,
                 eof=gap + 3 * poll, msgs=msgs, arr=arr)
+
+
+def length_field_cases():
+    """two messages with a 64-bit length field (payload >= 65536) in ONE history; the read boundary falls inside the 8-byte length
+    field of the first one, after every k = 1..7 of its bytes (and inside both): the second message - all of whose bytes are
+    available - must be delivered in the cycle in which its last byte arrives"""
+    out = []
+    msgs = [['binary', 70000, 1], ['binary', 66000, 1], ['ping', 5, 1]]
+    stream, marks = build_stream(msgs)
+    hs = marks[0][0]
+    f1 = marks[1][0]          # end of the first message's frame
+    for k in range(1, 8):
+        for second_split in (0, 3):
+            sizes = [2 + k, f1 - hs - 2 - k]
+            rest = len(stream) - f1
+            sizes += ([2 + second_split, rest - 2 - second_split] if second_split else [rest])
+            arr = [[0, hs]] + [[1 + i, n] for i, n in enumerate(sizes)]      # one tick apart: every boundary is a read boundary
+            out.append(dict(tag='length-field/plain/%d/%d' % (k, second_split), tls=False, poll=5, prate=0, eof=len(sizes) + 15, msgs=msgs, arr=arr))
+    return out
+
+
+def closing_cases(rng, n):
+    """the application has called close() (closing handshake under way, close timeout armed) while the peer keeps sending: many small
+    frames per TLS record / per burst - everything available must still be drained without waiting"""
+    out = []
+    # directed: after close() ONE TLS-like record larger than the receive buffer arrives, then silence: the read leaves decrypted
+    # bytes inside the TLS layer, which must be drained without waiting
+    for extra in (1, 300, BUF - 1, BUF + 7):
+        msgs = [['text', 10, 1], ['binary', BUF + extra, 1], ['ping', 5, 1], ['text', 20, 1]]
+        stream, marks = build_stream(msgs)
+        hs, f1 = marks[0][0], marks[1][0]
+        out.append(dict(tag='closing/jumbo-record/%d' % extra, tls=True, poll=5, prate=0, eof=3 + 4 * 5, msgs=msgs,
+                        arr=[[0, hs], [1, f1 - hs], [3, len(stream) - f1]], close_at=1, ctimeout=100000))
+    for k in range(n):
+        transport = ['tls', 'tls', 'jumbo', 'plain'][k % 4]
+        c = make_case(rng, rng.choice(['small-frames', 'small-frames', 'record-edge']), transport)
+        c['tag'] = 'closing/' + c['tag']
+        c['close_at'] = rng.choice([1, 2, 3, 5])
+        c['ctimeout'] = 100000       # armed, but never due within the case (what happens when it is due: C15)
+        c['prate'] = 0
+        out.append(c)
+    return out
 
 
 def corpus():
@@ -753,7 +810,7 @@ def explore(res, tier, seed, model_ok=True):
                 'exhaustive grid: burst size {16383,16384,16385,32768,65535,65536,65537,131071,131072,131073} x transport x gap; '
                 'plus real loopback TCP and TLS echo rounds; non-trivial = some arrival carries more than one frame, or exceeds a record / the buffer, or a timeout separates arrivals; '
                 'distinct by (transport, poll, messages, arrivals)')
-    cases = corpus()
+    cases = corpus() + length_field_cases() + closing_cases(rng, 12 if tier == 'quick' else 150)
     bursts = [TLS_REC - 1, TLS_REC, TLS_REC + 1, 2 * TLS_REC, BUF - 1, BUF, BUF + 1, 2 * BUF - 1, 2 * BUF, 2 * BUF + 1]
     gaps = [0, 6] if tier == 'quick' else [0, 1, 5, 6]
     ngrid = 0
@@ -774,7 +831,10 @@ def explore(res, tier, seed, model_ok=True):
     if outs and '__crash__' not in outs[0] and not any(t.startswith('P') for t in outs[0]['tokens'].split(' ')):
         sc = 0
         res.notes.append('variant detected: SelectorBase.wait does not consult pending(); model run with shortcut=false')
-    models = runner.model_run([model_line(c, sc) for c in cases]) if model_ok else [None] * len(cases)
+    # cases in which the application calls close() are judged by the oracle alone (the transport model has no application calls)
+    mlines = [model_line(c, sc) for c in cases if not c.get('close_at')]
+    mit = iter(runner.model_run(mlines) if model_ok else [None] * len(mlines))
+    models = [None if c.get('close_at') else next(mit) for c in cases]
     for case, out, mod in zip(cases, outs, models):
         if '__crash__' in out:
             res.crashes.append(out)
